@@ -258,9 +258,10 @@ class PersLandscapeExact(PersLandscape):
         A = self.dgms
         # change A into a list
         A = list(A)
-        # change inner nparrays into lists
+        # change inner nparrays into lists of Python floats (integer dtypes, unsigned or narrow
+        # ones in particular, would wrap in the sums and differences of the sweep)
         for i in range(len(A)):
-            A[i] = list(A[i])
+            A[i] = [float(x) for x in A[i]]
         if A[-1][1] == np.inf:
             A.pop(-1)
 
